@@ -295,9 +295,10 @@ def is_valid_ip(ip: str) -> bool:
 
     Supports IPv4 and IPv6.
     """
-    if not ip or "\x00" in ip:
-        # getaddrinfo resolves empty strings to localhost, and truncates
-        # on zero bytes.
+    if not ip or "\x00" in ip or not ip.isascii():
+        # getaddrinfo resolves empty strings to localhost, truncates
+        # on zero bytes, and IDNA-normalizes non-ASCII text (so that e.g.
+        # superscript or full-width digits would pass as numeric).
         return False
     try:
         res = socket.getaddrinfo(
